@@ -67,6 +67,30 @@ CHECKS = {
              'rename only for attributes without dependants; refresh from a dataset of the same dimensionality.',
         technique='TLA+ spec + TLC; behaviour replay into real Data with a hub message recorder',
         design='7/C17'),
+    'C04': dict(
+        text='Views.tla defines, from first principles, the result shape and the source index of every result position for every '
+             'supported view (None, Ellipsis, integer/slice tuples possibly shorter than ndim, index arrays, boolean masks); TLC '
+             'enumerates every (shape, view) configuration in the bound and checks the index semantics; each configuration is '
+             'applied to every attribute kind (stored float with NaN/inf, int, categorical, derived, pixel, world, linked) and '
+             'every elementary selection kind on a real dataset and must equal the full-size result re-indexed through the TLC '
+             'index map; IndexedData values/masks/statistics/histograms are compared with the parent slice before and after '
+             'changing its indices.',
+        note='Bounded: shapes up to 3-d with lengths <= 3; quick uses a curated item set (7 slices + 2 ints per axis), thorough every '
+             'slice with 0<=b,e<=n and step 1-2. Negative steps, np.newaxis and the empty tuple are outside the domain. Reference: '
+             'the request without a view on fresh objects. Two open known findings (KF-C04-1, KF-C04-2).',
+        technique='TLA+ spec as enumerator and index-map oracle (TLC -dump) + replay into real Data',
+        design='7/C04'),
+    'C20': dict(
+        text='ArrayHelpers.tla: TLC enumerates every pair of normalised positive-step slices over every length in the bound, every '
+             'broadcast pattern and every small categorical array, computing the expected positions / shapes / categories and codes, '
+             'and the real helpers (combine_slices, unbroadcast, broadcast_arrays_minimal, categorical_ndarray, unique, index_lookup) '
+             'are called on each; view_shape is compared with the result shapes of Views.tla; the chunk lists actually returned by '
+             'iterate_chunks/find_chunk_shape for every shape and every limit or chunk shape are recorded and validated by TLC '
+             'against the partition requirement (code -> spec trace validation).',
+        note='Bounded but exhaustive inside the bound: lengths <= 6 (8 thorough), steps <= 3, shapes <= 3x3x3 (chunks: <= 4^3, 5^3 '
+             'thorough), categorical arrays of length <= 4 over 3 symbols.',
+        technique='TLA+ spec as enumerator/oracle + TLC trace validation of recorded outputs',
+        design='7/C20'),
 }
 
 NOT_APPLICABLE = {}
